@@ -200,6 +200,15 @@ impl AnySet {
             AnySet::Fastq(s) => s.verif_buffer(),
         }
     }
+    /// `Clone::clone_from` of the underlying record set (the destination keeps its own allocations and
+    /// whatever an implementation does with them)
+    pub fn clone_from_set(&mut self, other: &AnySet) {
+        match (self, other) {
+            (AnySet::Fasta(d), AnySet::Fasta(s)) => d.clone_from(s),
+            (AnySet::Fastq(d), AnySet::Fastq(s)) => d.clone_from(s),
+            (d, s) => *d = s.clone(),
+        }
+    }
     pub fn shrink(&mut self) {
         match self {
             AnySet::Fasta(s) => s.shrink_buffer_to_fit(),
